@@ -18,6 +18,40 @@ SPEC = {
 }
 
 
+def hashseed_suite(chk, tier, seed):
+    """Same cases in sub-processes under different PYTHONHASHSEED values: the canonical result (index, states, keys and
+    log-probabilities of the best path) must be identical, no exclusion."""
+    import json, os, subprocess, sys
+    from checks.common import VERIF, REPO
+    n = 400 if tier == 'quick' else 6000
+    base = (seed * 7919) % (2 ** 30)
+    outs = {}
+    for hs in (['0', '1', '2'] if tier == 'quick' else ['0', '1', '2', '3', 'random']):
+        env = dict(os.environ, PYTHONHASHSEED=hs, PYTHONPATH=f"{REPO}:{VERIF}")
+        p = subprocess.run([sys.executable, '-W', 'ignore', os.path.join(VERIF, 'rtc', 'hashseed_child.py'), str(base), str(base + n)],
+                           capture_output=True, text=True, env=env, timeout=3000)
+        try:
+            outs[hs] = json.loads(p.stdout.strip().splitlines()[-1])
+        except Exception:
+            chk.undecided.append(f"hash-seed child failed under PYTHONHASHSEED={hs}: {p.stderr[-300:]}")
+            return
+    ref = outs['0']
+    nontriv = 0
+    for i, r in enumerate(ref):
+        if len(r) > 2 and len(r[2]) >= 2:
+            nontriv += 1
+        for hs, o in outs.items():
+            if o[i] != r:
+                chk.violation(key='C10:result-depends-on-the-hash-seed', text=f"case {r[0]}: PYTHONHASHSEED=0 -> {r[1:3]}, PYTHONHASHSEED={hs} -> {o[i][1:3]}",
+                              replay={'kind': 'bounded', 'suite': 'hash-seeds', 'case_seed': r[0], 'seed0': r, f'seed{hs}': o[i]})
+                break
+    chk.bounded_suite('hash-seeds(sub-processes)', n * len(outs), nontriv, [ref[0], ref[1]] if len(ref) > 1 else ref,
+                      RULE + f"; string labels; each case run in {len(outs)} sub-processes with PYTHONHASHSEED in {sorted(outs)}; non-trivial = best path with >= 2 states", '')
+
+
+SPEC['post'] = [hashseed_suite]
+
+
 def run(tier, seed, only=None):
     return mcheck.run_property('C10', tier, seed, only, SPEC)
 
